@@ -318,16 +318,63 @@ type c06fiUX struct {
 func (f *c06fiUX) Extended() []StatExtended { return f.ext }
 
 // POSIX file type bits (S_IFREG, S_IFDIR, S_IFLNK), written out here rather than taken from the package.
+// (the POSIX type code and the three special bits of the draft's permissions word, from a table of its own)
 func c06posixMode(m os.FileMode) uint32 {
 	p := uint32(m & os.ModePerm)
-	switch {
-	case m&os.ModeDir != 0:
+	if m&os.ModeSetuid != 0 {
+		p |= 0o4000
+	}
+	if m&os.ModeSetgid != 0 {
+		p |= 0o2000
+	}
+	if m&os.ModeSticky != 0 {
+		p |= 0o1000
+	}
+	switch m & os.ModeType {
+	case os.ModeDir:
 		return p | 0o040000
-	case m&os.ModeSymlink != 0:
+	case os.ModeSymlink:
 		return p | 0o120000
+	case os.ModeNamedPipe:
+		return p | 0o010000
+	case os.ModeSocket:
+		return p | 0o140000
+	case os.ModeDevice | os.ModeCharDevice:
+		return p | 0o020000
+	case os.ModeDevice:
+		return p | 0o060000
 	default:
 		return p | 0o100000
 	}
+}
+
+// c06osMode is the inverse for the words c06posixMode produces.
+func c06osMode(perm uint32) os.FileMode {
+	m := os.FileMode(perm & 0o777)
+	if perm&0o4000 != 0 {
+		m |= os.ModeSetuid
+	}
+	if perm&0o2000 != 0 {
+		m |= os.ModeSetgid
+	}
+	if perm&0o1000 != 0 {
+		m |= os.ModeSticky
+	}
+	switch perm &^ 0o7777 {
+	case 0o040000:
+		m |= os.ModeDir
+	case 0o120000:
+		m |= os.ModeSymlink
+	case 0o010000:
+		m |= os.ModeNamedPipe
+	case 0o140000:
+		m |= os.ModeSocket
+	case 0o020000:
+		m |= os.ModeDevice | os.ModeCharDevice
+	case 0o060000:
+		m |= os.ModeDevice
+	}
+	return m
 }
 
 // c06fileInfo builds the FileInfo flavour `form` and the attributes the draft expects for it:
